@@ -202,6 +202,23 @@ pub fn run_c18(seed: u64, thorough: bool) -> Vec<Value> {
         out.push(json!({"ev": "cid", "input": "customer_randomness", "variant": format!("byte {}", byte), "changed": ChannelId::new(mr, bincode::deserialize(&b).unwrap(), &pk, mi, ci).to_bytes() != id0, "expect_changed": true}));
     }
     out.push(json!({"ev": "cid", "input": "public_key", "variant": "other key", "changed": ChannelId::new(mr, cr, &other_pk, mi, ci).to_bytes() != id0, "expect_changed": true}));
+    // every single field of the merchant public key matters (all other fields fixed)
+    {
+        let pkt = Tree::of(&pk);
+        for l in pkt.leaves.clone() {
+            if l.kind != "bytes" { continue; }
+            let mut b = pkt.bytes.clone();
+            let new: Vec<u8> = if l.len == 48 {
+                bls12_381::G1Affine::from(bls12_381::G1Projective::from(crate::indep::g1(&pkt.bytes[l.off..l.off + 48]).unwrap()) + bls12_381::G1Projective::generator()).to_compressed().to_vec()
+            } else {
+                bls12_381::G2Affine::from(bls12_381::G2Projective::from(crate::indep::g2(&pkt.bytes[l.off..l.off + 96]).unwrap()) + bls12_381::G2Projective::generator()).to_compressed().to_vec()
+            };
+            b[l.off..l.off + l.len].copy_from_slice(&new);
+            if let Ok(vpk) = bincode::deserialize::<zkchannels_crypto::pointcheval_sanders::PublicKey<5>>(&b) {
+                out.push(json!({"ev": "cid", "input": "public_key", "variant": format!("field {} replaced", l.path), "changed": ChannelId::new(mr, cr, &vpk, mi, ci).to_bytes() != id0, "expect_changed": true}));
+            }
+        }
+    }
     let variants = |orig: &[u8]| -> Vec<(String, Vec<u8>)> {
         let mut v = vec![];
         for pos in [0usize, orig.len() / 2, orig.len() - 1] { let mut b = orig.to_vec(); b[pos] ^= 0x20; v.push((format!("byte {} changed (same length)", pos), b)); }
